@@ -115,7 +115,8 @@ pub fn record_one(prop: &str, seed: u64, i: usize) -> Vec<String> {
         "C06" => (crate::flatgen::random_tree_body(&mut rng), vec![], vec![]),
         _ => (random_body(prop, &mut rng), vec![], vec![]),
     };
-    let r = flat::render(&items, &consts, &params);
+    let decoy: Vec<String> = if prop == "C04" { NAMES.iter().map(|x| x.to_string()).collect() } else { Vec::new() };
+    let r = flat::render_with_decoy(&items, &consts, &params, &decoy);
     // what the real parser saw
     let decls = alpha::parse(&r.source, "case.pn");
     let proj = flat::project(&r.source, &decls);
@@ -136,7 +137,7 @@ pub fn record_one(prop: &str, seed: u64, i: usize) -> Vec<String> {
         t.push(json!({"k": k, "p": p}));
     }
     lines.push(
-        json!({"ev": "input", "case": i, "b": b, "t": t, "off": r.off,
+        json!({"ev": "input", "case": i, "b": b, "t": t, "off": r.off, "decoy": decoy.len(),
                "consts": proj.consts.iter().map(|x| json!({"n": x.0, "line": x.1})).collect::<Vec<_>>(),
                "params": proj.params.iter().map(|x| json!({"n": x.0, "line": x.1})).collect::<Vec<_>>()})
         .to_string(),
